@@ -14,6 +14,7 @@ mod vals;
 mod codec;
 mod pcol;
 mod galgo;
+mod vecidx;
 mod q;
 mod qmeta;
 mod txstress;
@@ -42,6 +43,7 @@ fn main() {
         "codec" => codec::main(&opts),
         "pcol" => pcol::main(&opts),
         "galgo" => galgo::main(&opts),
+        "vec" => vecidx::main(&opts),
         "snapfault" => snap::faults(&opts),
         "q" => q::main(&opts),
         "qprobe" => q::probe(&opts),
